@@ -66,7 +66,7 @@ class _LogFormatter(logging.Formatter):
     }
 
     def format(self, record: logging.LogRecord):
-        level_name = self.loglevel2colour[record.levelno].format(record.levelname)
+        level_name = self.loglevel2colour.get(record.levelno, "{}").format(record.levelname)
         return f"{_sim_cycle} {level_name} {record.name} {record.getMessage()}"
 
 
